@@ -39,6 +39,13 @@ impl Env {
             handler: Handler::new(storage),
         }
     }
+    /// Open a handler over an existing data directory (crash images).
+    pub fn open(scratch: Scratch) -> Result<Env, String> {
+        let mut cfg = mk_config(scratch.path(), 10000, DurabilityMode::Immediate, None);
+        cfg.storage.auto_create_knowledge_graphs = false;
+        let storage = StorageEngine::new(cfg).map_err(|e| format!("{e}"))?;
+        Ok(Env { scratch, handler: Handler::new(storage) })
+    }
     /// Clean restart: drop the handler (and its storage engine), reopen on the same directory.
     pub fn restart(self) -> Result<Env, String> {
         let Env { scratch, handler } = self;
